@@ -263,6 +263,18 @@ pub fn rand_real56(rng: &mut Rng) -> u64 {
         return rand_real53(rng);
     }
     let mut m = rng.u64() & 0x00FF_FFFF_FFFF_FFFF;
+    // one in four: a mantissa whose rounding to 53 bits carries (runs of ones down to the last few bits: the value just below a power of
+    // two, which rounds UP to it), or which sits exactly on / next to a rounding tie
+    if rng.chance(1, 4) {
+        let lead = rng.below(4); // leading zero bits of the first hex digit: 0..3 (the 53-bit window moves with them)
+        let ones = 0x00FF_FFFF_FFFF_FFFFu64 >> lead;
+        m = match rng.below(4) {
+            0 => ones,
+            1 => ones & !rng.below(8),
+            2 => ones & !(rng.below(16) << rng.below(8)),
+            _ => (m >> lead) | (1 << (55 - lead)) | rng.below(16),
+        };
+    }
     if (m >> 52) & 0xF == 0 {
         m |= (1 + rng.below(15)) << 52;
     }
